@@ -46,6 +46,9 @@ var apiTexts = map[string]string{
 	"heir":     "{ // {allOf: \"@typeObj\"}\n  \"hk\": 1\n}",
 	"typeObj":  "{\n  \"ok\": 1\n}",
 	"usesHeir": `{"r": @heir}`,
+	// a schema that refers to a named enum rule: every object of one history with this content is given the SAME
+	// rule object (apiWorld.rule), as the schemas of one project are
+	"usesRule": `"WOLF" // {enum: @animals}`,
 	// keys that have to be escaped when they are written out again
 	"esckeys": `{"a\"b": 1, "c\\d": {"e\nf": [true, {"\u2028": null}]}, "t\tab": "v", "\u0001": 2}`,
 	// a root that is nothing but a reference to an object type / a choice between an object type and a string type
@@ -144,10 +147,13 @@ type apiWorld struct {
 	content map[string]string
 	regs    map[string][]string // contents registered, in call order
 	held    []*heldResult
+	rule    *enum.Enum // the one enum rule object of the history (content usesRule)
 }
 
+const apiRuleText = "[\n  \"DOG\", // a dog\n  // a line that holds nothing but a comment\n  \"WOLF\",\n  \"LION\" // last\n]"
+
 func newWorld() *apiWorld {
-	return &apiWorld{objs: map[string]*jschema.JSchema{}, content: map[string]string{}, regs: map[string][]string{}}
+	return &apiWorld{objs: map[string]*jschema.JSchema{}, content: map[string]string{}, regs: map[string][]string{}, rule: enum.New("@animals", apiRuleText)}
 }
 
 // call performs one public call and returns the normalised result and the held value.
@@ -164,6 +170,9 @@ func (w *apiWorld) call(op, obj, arg string) (res string, h *heldResult, panicke
 	case "New":
 		w.objs[obj] = jschema.New("schema-"+arg, apiTexts[arg])
 		w.content[obj] = arg
+		if arg == "usesRule" {
+			_ = w.objs[obj].AddRule("@animals", w.rule)
+		}
 		return "OK", nil, ""
 	case "AddType":
 		t := w.objs[arg]
